@@ -210,6 +210,7 @@ def run(ctx):
     from . import c04_store
     ctx.run_families(c04_store.families(ctx) + families(ctx))
     ctx.bounds += ['store edits: ONE remove / add / upsert of one entity with arbitrary parents, from ANY closed acyclic store of <= 3 entities (+ one parent id without a record) => edit histories of any length over stores of that size',
+                   'batches: add / upsert of TWO entities in one call (both orders, replacing and / or new) on stores of <= 2 entities + one id without a record (thorough: + two ids), and on a 3-entity chain store n2 -> n1 -> n0, n1 -> n3 (each of these links present or not, no others) replacing n0 and n1 in one call; larger batches are outside',
                    'stores of <= 3 entities plus one parent id without a record (thorough: also 4 entities), EVERY possible parent link among them symbolic: 2^(N*(N+1)) graphs per size decided in one query; '
                    'larger stores are outside the claim', 'recursion of cyclic_tc_internal / add_ancestors bounded by the number of entities (never reached: the executor aborts otherwise)']
     ctx.assumptions += ['std HashMap / HashSet / Vec / Range and slice::sort_by modelled on concrete keys (mir2smt/containers.py); maps and sets iterate in insertion order - one of the orders a hash container may produce, '
@@ -218,7 +219,7 @@ def run(ctx):
                         'node ids are machine integers: equality and hashing of EntityUID are outside the claim',
                         'store edits run Entities::{remove,add,upsert}_entities, repair_tc, add_ancestors, enforce_dag_from_tc_for and the real Entity / TCNode-for-Arc<Entity> method bodies; the two HashSet<EntityUID> fields of an entity '
                         'are sets with symbolic membership; pre-state = canonical closed store (indirect ancestors = reachable and not a direct parent; the public constructors give new entities parents only); '
-                        'update_entity_map is modelled (insert / overwrite / duplicate); batches of several entities per call, remove of several ids per call and TCComputation::{Assume,Enforce}AlreadyComputed through the edit entry points are outside']
+                        'update_entity_map is modelled (insert / overwrite / duplicate); batches of more than two entities per call, remove of several ids per call and TCComputation::{Assume,Enforce}AlreadyComputed through the edit entry points are outside']
     return ctx.finish('Solver-decided (bounded) correctness of the transitive-closure algorithms executed from the MIR of transitive_closure.rs and entities.rs on symbolic graphs: after compute_tc the ancestor relation is exactly reachability '
                       'through parent links (ids without a record are leaves), with enforce_dag a cycle is reported iff one exists; enforce_tc_and_dag accepts exactly the transitively closed acyclic stores; and one remove / add / upsert '
                       'from any closed acyclic store leaves ancestors = reachability through the parent links then in the store (no ancestor survives the loss of the only path that justified it), rejecting exactly the edits that create a cycle.')
